@@ -117,6 +117,13 @@ fn format_one(spec: &CFormatSpec, arg: Arg, bytes_mode: bool) -> Result<Vec<u8>,
     Ok(match (&spec.format_type, arg) {
         (CFormatType::Number(_), Arg::Int(i)) => spec.format_number(&i).into_bytes(),
         (CFormatType::Float(_), Arg::Float(f)) => spec.format_float(f).into_bytes(),
+        // what an interpreter does for an int argument: float(i), str(i), chr(i)
+        (CFormatType::Float(_), Arg::Int(i)) => spec.format_float(i.to_string().parse::<f64>().map_err(|_| "INTFLOAT")?).into_bytes(),
+        (CFormatType::String(_), Arg::Int(i)) if !bytes_mode => spec.format_string(i.to_string()).into_bytes(),
+        (CFormatType::Character, Arg::Int(i)) if !bytes_mode => {
+            let c = i.to_string().parse::<u32>().ok().and_then(char::from_u32).ok_or("BADCHAR")?;
+            spec.format_char(c).into_bytes()
+        }
         (CFormatType::String(_), Arg::Str(s)) if !bytes_mode => spec.format_string(s).into_bytes(),
         (CFormatType::String(_), Arg::Bytes(b)) if bytes_mode => spec.format_bytes(&b),
         (CFormatType::Character, Arg::Str(s)) if !bytes_mode => {
